@@ -136,6 +136,8 @@ type Sim struct {
 	learnedSaved map[int]int
 	filters    []*classFilter
 	healAt     time.Duration
+	cleanStop  bool
+	violBase   int
 
 	steps     int
 	maxSteps  int
@@ -147,6 +149,10 @@ type Sim struct {
 }
 
 func (s *Sim) now() time.Duration { return time.Since(s.start) }
+
+// failedNow: a violation was recorded since the current base (known findings
+// recorded earlier in a crash-point enumeration do not stop later points).
+func (s *Sim) failedNow() bool { return len(s.res.Violations) > s.violBase }
 
 // wallNow reads the real clock (time.Now is the fake clock inside the bubble).
 // It is used only for the per-run watchdog, never for a decision that affects
@@ -462,7 +468,7 @@ func (s *Sim) loop(goal func() bool, maxSim time.Duration) {
 		synctest.Wait()
 		s.flushOutbox()
 		s.mon.afterQuiescence()
-		if s.res.Failed() {
+		if s.failedNow() {
 			return
 		}
 		if goal() {
@@ -536,8 +542,17 @@ func (s *Sim) stopNode(n *kit.Node) {
 		_ = n.Mgr.Stop()
 		_ = n.Bus.Stop()
 		n.TxPool.Stop()
+		if s.cleanStop {
+			// what backend.Stop does for an orderly shutdown: flush recent state
+			n.Exec.Stop()
+			n.BC.Stop()
+		}
 	}()
 	closeWAL(n)
+	func() {
+		defer func() { recover() }()
+		n.BC.VerifReleaseCaches()
+	}()
 }
 
 func (s *Sim) mkScratch() {
